@@ -2,16 +2,10 @@
 
 package fox
 
-import (
-	"sync"
-
-	"github.com/tigerwill90/fox/internal/simplelru"
-)
+import "github.com/tigerwill90/fox/internal/simplelru"
 
 // Simulation hooks (see verif_on.go). With the verif build tag off they are empty
 // functions that the compiler inlines away.
-
-func simAcquire(*sync.Mutex) {}
 
 func simPoint(int) {}
 
